@@ -68,7 +68,8 @@ LAYOUT_FLAGS = (
     'lower_code',  # abbreviated code and options in lower case
     'pretext',  # text (comment lines, empty line) before the first record
     'crlf',  # CR LF line endings
-    'nul',  # NUL bytes as separators
+    'nul',  # NUL bytes as separators (between plain words, around = in code)
+    'nul_kv',  # NUL bytes as separators before KEY=VALUE options and parenthesised values
     'tabsep',  # tabs as separators
     'cmt_after',  # comments after values
     'cmt_own',  # comments on own lines between and inside option records
@@ -92,7 +93,8 @@ LAYOUT_FLAGS = (
 
 # flags that keep the model a plain, runnable looking model with upper case symbols
 # (read_model_from_string only detects NONMEM code by an upper case $PRO, so no lower case record names)
-MODEL_FLAGS = tuple(f for f in LAYOUT_FLAGS if f not in ('lower_code', 'lower'))
+# ('nul_kv' texts are rejected by the parser: no model to speak of)
+MODEL_FLAGS = tuple(f for f in LAYOUT_FLAGS if f not in ('lower_code', 'lower', 'nul_kv'))
 
 
 def _toks(tokens, F, start=0):
@@ -107,7 +109,14 @@ def _toks(tokens, F, start=0):
     out = []
     for i, t in enumerate(tokens):
         if i:
-            out.append(seps[(start + i) % len(seps)])
+            sep = seps[(start + i) % len(seps)]
+            plain = re.fullmatch(r'\w+', t) and re.fullmatch(r'\w+', tokens[i - 1])
+            if not plain:
+                if 'nul_kv' in F:
+                    sep = '\x00'
+                elif sep == '\x00':
+                    sep = ' '
+            out.append(sep)
         out.append(t)
     return ''.join(out)
 
@@ -353,6 +362,10 @@ def model_text(base, flags, **kw):
 def feature_tag(kind, text, flags=()):
     if 'lower_code' in flags:
         return 'lower case option keywords'
+    if 'nul_kv' in flags:
+        return 'NUL byte as separator in a non-code record'
+    if kind is None:
+        return None
     if kind in ('PK', 'PRED', 'ERROR', 'DES'):
         last = re.split(r'\r?\n', text)[-1]
         if last.startswith('"'):
@@ -965,15 +978,19 @@ def _match_segments(N, segments, gaps):
 def lines_preserved(old_lines, new_lines, edited, removed=False):
     """Every line of old_lines whose index is not in `edited` appears in new_lines, exactly and in order,
     with nothing inserted except (when not removed) at least one line in place of each edited line."""
-    edited = sorted(edited)
+    groups = []  # maximal runs of consecutive edited lines (one statement may span several lines)
+    for e in sorted(edited):
+        if groups and groups[-1][1] == e - 1:
+            groups[-1][1] = e
+        else:
+            groups.append([e, e])
     segments = []
     prev = 0
-    for e in edited:
-        segments.append(old_lines[prev:e])
-        prev = e + 1
+    for a, b in groups:
+        segments.append(old_lines[prev:a])
+        prev = b + 1
     segments.append(old_lines[prev:])
-    # adjacent edited lines: merge (empty segment between them)
-    gaps = [((0, 0) if removed else (1, 10**6)) for _ in edited]
+    gaps = [((0, 0) if removed else (1, 10**6)) for _ in groups]
     return _match_segments(new_lines, segments, gaps)
 
 
@@ -1168,7 +1185,8 @@ def check_edit(text, edit, info):
     new = ref_split(new_text)
     related = EDIT_KINDS.get(op) or (info['code_kind'],)
     if op == 'rename':
-        related = tuple(k for k, c in old if k in ('PK', 'PRED', 'ERROR') and _word_in(edit[1], c))
+        related = tuple(k for k, c in old if k in ('PK', 'PRED', 'ERROR')
+                        and any(_word_in(edit[1], ln) for ln in c.splitlines()[1:]))
     kinds = []
     for k, _ in old + new:
         if k not in kinds:
@@ -1352,7 +1370,7 @@ def code_edits_plain(base):
     if base == 'advan':
         return [
             (['modify', 'TVCL'], 'PK'), (['modify', 'TVV'], 'PK'), (['modify', 'V'], 'PK'), (['modify', 'S1'], 'PK'),
-            (['insert', 'TVCL'], 'PK'), (['insert', 'CL'], 'PK'), (['rename', 'TVCL'], 'PK'), (['rename', 'V'], 'PK'),
+            (['insert', 'TVCL'], 'PK'), (['insert', 'CL'], 'PK'), (['rename', 'TVCL'], 'PK'), (['rename', 'TVV'], 'PK'),
             (['modify', 'W'], 'ERROR'), (['modify', 'IPRED'], 'ERROR'), (['remove', 'IPRED'], 'ERROR'),
             (['insert', 'W'], 'ERROR'), (['rename', 'W'], 'ERROR'),
         ]
